@@ -50,7 +50,7 @@ def baseline(ctx, base, cases, p):
     uns = p.map(_unfaulted, [(base, sh, lay, o) for sh, lay, o in cases], chunksize=1)
     jobs, idx = [], []
     for i, un in enumerate(uns):
-        if not un.get("error"):
+        if not un.get("error") and un.get("request") is not None:
             jobs.append(dict(lay=un["lay"], entries=un["pre_entries"], oracle=None, request=un["request"]))
             idx.append(i)
     models = X.model_runs(ctx, jobs) if jobs else []
@@ -60,6 +60,10 @@ def baseline(ctx, base, cases, p):
         rec = dict(un=un, model=None, problems=[])
         if un.get("error"):
             rec["problems"].append("harness: " + un["error"][:400])
+            out.append(rec)
+            continue
+        if un.get("request") is None:
+            rec["problems"].append(un.get("derive_error") or "no model request")
             out.append(rec)
             continue
         m = models[mi]
